@@ -86,7 +86,7 @@ def mc_jobs(tier):
     mid = max(1, tlc.DEFAULT_WORKERS // 4)
     jobs = [
         ("cap_main", "CapacityMC", cap_consts("MCQuick" if q else "MCFull"), CAP_INVS, not q, True, big),
-        ("pool_12", "Pool", pool_consts((1, 2)), POOL_INVS, not q, False, mid),
+        ("pool_12", "Pool", pool_consts((1, 2), maxhold=1 if q else 2), POOL_INVS, not q, False, mid),
         ("barrier", "Barrier", barrier_consts(), BARRIER_INVS, True, False, 1),
     ]
     if q:
@@ -336,7 +336,8 @@ def run(tier, seed, replay=None):
         return do_replay(chk, replay, known_dev)
     rng = random.Random(seed)
     quick = tier == "quick"
-    spin_prone = set(world.POLLING_PRIMS) if "zero_delay_poll" in known_dev else set()
+    # classes with the open zero_delay_poll finding: their random populations contend mostly inside one instant
+    spin_prone = {k.split(":", 1)[1] for k in chk.known_open if k.startswith("zero_delay_poll:")}
     t0 = time.time()
     phase = {}
     ex, futs = start_model_checking(tier)
@@ -386,7 +387,7 @@ def run(tier, seed, replay=None):
         execute(extra.random_threadpool_scenario(rng), "random")
         execute(extra.random_preempt_scenario(rng), "random")
     # the bounded envelopes of Pool.tla and Barrier.tla, every scenario (spec -> code for these two models)
-    pscens = pool_scenarios_from_model(POOL_ENVELOPE)
+    pscens = pool_scenarios_from_model(dict(POOL_ENVELOPE, maxhold=1) if quick else POOL_ENVELOPE)
     if quick and len(pscens) > 400:
         pscens = rng.sample(pscens, 400)
     for s in pscens:
